@@ -9,6 +9,7 @@ from harness import checklib  # noqa: E402
 
 def run(c):
     observer_design.run_design(c, "C06")
+    observer_design.run_replay(c, "C06")
     b = 2 if c.thorough else 1
     fams = [("lifecycle", oe.fam_lifecycle(), b)]
     oe.run_families(c, "C06", fams, bound=b, random_n=2000 if c.thorough else 200)
